@@ -326,7 +326,14 @@ func (x *Exec) loadAt(st *State, t types.Type, key, base string, idx []string) V
 		x.em.assume(fmt.Sprintf("(and (<= 0 %s) (<= %s %s))", term, term, st.Frontier))
 		return Ptr{Base: term, Root: u.Elem()}
 	case *types.Array:
-		x.fail("load of whole array value %s unsupported", typeKey(t))
+		if u.Len() > 32 {
+			x.fail("load of whole array value %s unsupported", typeKey(t))
+		}
+		av := ArrayV{Typ: t}
+		for i := int64(0); i < u.Len(); i++ {
+			av.Elems = append(av.Elems, x.loadAt(st, u.Elem(), key, base, append(append([]string{}, idx...), bvLit(uint64(i), 64))))
+		}
+		return av
 	case *types.Signature:
 		return FuncV{Name: x.leafLoad(st, key, base, idx, "Int"), Typ: t}
 	case *types.Map:
@@ -402,7 +409,14 @@ func (x *Exec) storeAt(st *State, t types.Type, key, base string, idx []string, 
 		x.leafStore(st, key+"#ref", base, idx, "Int", i.Ref)
 		return
 	case *types.Array:
-		x.fail("store of whole array value unsupported")
+		av, ok := v.(ArrayV)
+		if !ok {
+			x.fail("store of whole array value unsupported (%T)", v)
+		}
+		for i, e := range av.Elems {
+			x.storeAt(st, u.Elem(), key, base, append(append([]string{}, idx...), bvLit(uint64(i), 64)), e)
+		}
+		return
 	}
 	x.leafStore(st, key, base, idx, sortOf(t), x.term(v))
 }
@@ -498,7 +512,14 @@ func (x *Exec) zeroValue(t types.Type) Value {
 		}
 		return tv
 	case *types.Array:
-		x.fail("zero value of array type %s unsupported", typeKey(t))
+		if u.Len() > 32 {
+			x.fail("zero value of array type %s unsupported", typeKey(t))
+		}
+		av := ArrayV{Typ: t}
+		for i := int64(0); i < u.Len(); i++ {
+			av.Elems = append(av.Elems, x.zeroValue(u.Elem()))
+		}
+		return av
 	}
 	if w, _, ok := bvWidth(t); ok {
 		return Scalar{T: bvLit(0, w), Typ: t}
@@ -557,7 +578,14 @@ func (x *Exec) freshValue(t types.Type, hint string, st *State) Value {
 		}
 		return tv
 	case *types.Array:
-		x.fail("fresh value of array type %s unsupported", typeKey(t))
+		if u.Len() > 32 {
+			x.fail("fresh value of array type %s unsupported", typeKey(t))
+		}
+		av := ArrayV{Typ: t}
+		for i := int64(0); i < u.Len(); i++ {
+			av.Elems = append(av.Elems, x.freshValue(u.Elem(), fmt.Sprintf("%s.%d", hint, i), st))
+		}
+		return av
 	}
 	return Scalar{T: x.em.freshConst(hint, sortOf(t)), Typ: t}
 }
@@ -749,6 +777,16 @@ func (x *Exec) iteValue(c string, a, b Value) Value {
 	case Iface:
 		bv := x.asIface(b, av.Typ)
 		r := Iface{Tag: ite(c, av.Tag, bv.Tag), Ref: ite(c, av.Ref, bv.Ref), Typ: av.Typ}
+		return r
+	case ArrayV:
+		bv, ok := b.(ArrayV)
+		if !ok {
+			x.fail("ite: array vs %T", b)
+		}
+		r := ArrayV{Typ: av.Typ}
+		for i := range av.Elems {
+			r.Elems = append(r.Elems, x.iteValue(c, av.Elems[i], bv.Elems[i]))
+		}
 		return r
 	case Tuple:
 		bv := b.(Tuple)
